@@ -124,6 +124,7 @@ type Spec struct {
 	PairWith        string
 	ExtraWireFiles  map[string]string // wire family: further wire files written verbatim ({{PKG}} = import path of the program); set aside with the others
 	WireLocalHelper bool              // wire family: one provider is wrapped by a function declared in wire.go itself
+	WireNoSets      bool              // wire family: every element stays at the top level of wire.Build (one wire file)
 	DotImport       string            // Dir of a sibling package the declaration files import with a dot
 	Parens          bool              // set references and provider expressions are written in parentheses
 	NoForward       bool              // main package gets no helpers for sibling-package types (so it need not import those packages)
